@@ -60,7 +60,7 @@ def _verus(text, unit, gdir, jobs, rlimit, fname):
     cfile = os.path.join(cdir, f'{unit}-{sha[:24]}.json')
     raw = None
     logdir = os.path.join(gdir, f'log-{unit}-{os.getpid()}')
-    cmd = ['verus', path, '--output-json', '--time-expanded', '--multiple-errors', '30', '--error-format=json',
+    cmd = ['verus', path, '--output-json', '--time-expanded', '--multiple-errors', '10', '--error-format=json',
            '--triggers-mode', 'silent', '--num-threads', str(jobs), '--log-all', '--log-dir', logdir]
     if rlimit:
         cmd += ['--rlimit', str(rlimit)]
@@ -75,7 +75,7 @@ def _verus(text, unit, gdir, jobs, rlimit, fname):
         shutil.rmtree(logdir, ignore_errors=True)
         t0 = time.time()
         # wall-clock guard: a query that Z3 does not give up on (seen once on a changed tree) must not hang the check
-        limit = int(os.environ.get('VERIF_VERUS_TIMEOUT', '1200'))
+        limit = int(os.environ.get('VERIF_VERUS_TIMEOUT', '900'))
         proc = subprocess.Popen(cmd, stdout=subprocess.PIPE, stderr=subprocess.PIPE, text=True, cwd=gdir, start_new_session=True)
         try:
             so, se = proc.communicate(timeout=limit)
@@ -142,7 +142,8 @@ def run_unit(unit, crate, repo, jobs=8, rlimit=None):
     removed_all = []
     removed_props = set()
     cur = res
-    while cur['tainted'] and not cur['tool_errors'] and res['unmask_passes'] < 3 and os.environ.get('VERIF_NO_UNMASK') != '1':
+    # (a failing function with a large rlimit can cost minutes per reported error: no auxiliary pass after a slow first pass)
+    while cur['tainted'] and not cur['tool_errors'] and res['unmask_passes'] < 3 and os.environ.get('VERIF_NO_UNMASK') != '1' and (raw.get('wall_s') or 0) < 400:
         ks = set()
         for f in cur['failures']:
             if f['function'] in g.expect_fail:
